@@ -412,7 +412,29 @@ Inductive vop :=
 | VSwap
 | VArith (op : arith)                     (* fiber + k, fiber * k, fiber + fiber, fiber * fiber *)
 | VUpdCoords (k : Z)                      (* tensor.updateCoords(c -> c + k) *)
-| VUpdPayloads (k : Z).                   (* tensor.updatePayloads(p -> p + k, depth = leaf) *)
+| VUpdPayloads (k : Z)                    (* tensor.updatePayloads(p -> p + k, depth = leaf) *)
+| VCopyNoOwner                            (* tensor.getRoot().copy(preserve_owner=False) *)
+| VFromFiber (sub : option nat).          (* Tensor.fromFiber(ids, fiber = the operand tensor's root
+                                             (None) / the root's i-th payload (Some i)): setRoot
+                                             copies a root that already has an owner *)
+
+(* Fiber.copy(preserve_owner=False) 4622-4633 on an owned fiber of rank k of a tensor with n
+   ranks: _detach_owner 4647-4657 clears the owner of the fiber and, recursively, of its
+   NON-EMPTY sub-fibers (iterOccupancy skips stored-but-empty ones, which keep their owner and
+   drag a copy of their rank into the pickle); deepcopy; _attach_owner restores the operand;
+   _attach_attrs 4659-4666 gives every detached fiber of the copy a deep copy of its former
+   rank's RankAttrs (with a default box for the leaf rank).  [t] is the deep copy; the fresh
+   attrs of the fiber labelled f get the labels base+2f, base+2f+1 (base = the counter). *)
+Fixpoint attach_attrs (base : N) (d : Z) (n k : nat) (t : lt) : lt :=
+  match t with
+  | LB _ _ => t
+  | LF f a es =>
+    LF f {| a_attrs := base + 2 * f;
+            a_def := if Nat.eqb (S k) n then Some (base + 2 * f + 1) else None;
+            a_own := None |}
+       (map (fun ct => (fst ct, if l_empty d (snd ct) then snd ct
+                                else attach_attrs base d n (S k) (snd ct))) es)
+  end.
 
 Record vres := { v_ops : list snapshot; v_res : snapshot; v_nx : N }.
 
@@ -520,6 +542,27 @@ Definition run_vop (fixed : bool) (d : Z) (n : nat) (o : vop) (ops : list snapsh
           Some {| v_ops := map (fun tx => {| s_tree := fst tx; s_ranks := s_ranks (snd tx) |}) (combine w' ops);
                   v_res := {| s_tree := r; s_ranks := s_ranks s' |}; v_nx := n'' |}
         | [] => None
+        end
+      end
+    | VCopyNoOwner =>
+      match n with
+      | O => None
+      | _ => let '(c, n1) := deepcopy t nx in
+             Some {| v_ops := ops; v_res := fiber_snap (attach_attrs n1 d n O c); v_nx := 3 * n1 + 2 |}
+      end
+    | VFromFiber sub =>      (* tensor.py setRoot 722-723: root = deepcopy(root.copy(preserve_owner=False)) *)
+      match n with
+      | O => None
+      | _ =>
+        let '(c, n1) := deepcopy t nx in
+        match sub with
+        | None => tensor_res n (Some (deepcopy (attach_attrs n1 d n O c) (3 * n1 + 2)))
+        | Some i =>
+          match nth_error (es_of c) i with
+          | Some (_, LF f a es) =>
+            tensor_res (pred n) (Some (deepcopy (attach_attrs n1 d n 1 (LF f a es)) (3 * n1 + 2)))
+          | _ => None
+          end
         end
       end
     end
